@@ -14,13 +14,15 @@ CLAIMED = {
             "Trusts z3/CrossHair's integer model; heights >= 0.", "DESIGN.md 4/C16"),
     "C17": ("CrossHair symbolic execution of merkletree.py with an injective (tagged-identity) hash constructor",
             "Solver verdict over all leaf values for every pair of list lengths <= 5 (quick) / <= 7 (thorough): equal roots imply equal "
-            "lists; root equals an independent reference construction; every proof (symbolic position) reproduces the root and contains the leaf.",
+            "lists; root equals an independent reference construction; every proof (symbolic position, n <= 8 quick / 16 thorough) reproduces "
+            "the root and contains the leaf; the caller's list is left unchanged.",
             "sha256d idealised as an injective constructor (collision-freeness assumed); leaves are atoms. Lists longer than the bound are outside.",
             "DESIGN.md 4/C17"),
     "C07": ("CrossHair symbolic execution of the real encoders/decoders on a pure-Python stream (symbolic fields; symbolic byte strings; templates with symbolic positions)",
             "Solver verdict per serializable type: encode->decode fieldwise for symbolic field values, decode->encode == consumed bytes for "
             "symbolic byte strings (free strings <= 206 bytes for fixed layouts, <= 44 bytes for list-bearing ones; concrete templates with "
-            "<= 2 symbolic positions beyond that), id == H(canonical bytes); VLQ primitive for all values < 2^27/2^34 and all strings <= 6 bytes.",
+            "<= 2 symbolic positions beyond that), list-carrying messages at list sizes around 0, 128 and the octet boundaries, id == H(canonical "
+            "bytes) also after in-place mutation and for objects read from the store; VLQ primitive for all values < 2^27/2^34 and all strings <= 6 bytes.",
             "PyBytesIO stands in for io.BytesIO; sha256d is a tagged identity in symbolic runs (real sha256d in replay); 64-bit fields are a "
             "16-bit symbolic window per byte offset; IPv6 addresses concrete; length prefixes > 3 octets only on the VLQ primitive.",
             "DESIGN.md 4/C07"),
@@ -31,13 +33,15 @@ CLAIMED = {
             "after every prefix, which is what makes further cuts redundant).", "DESIGN.md 4/C11"),
     "C04": ("CrossHair symbolic execution of CoinState.add_block_no_validation: inductive step with symbolic heights + all block trees <= 5/6 blocks",
             "Inductive step from an abstract pre-state (heights symbolic over the whole encodable range) proves head/tips/index update rules; "
-            "every parent vector for <= 5 (quick) / 6 (thorough) blocks is compared with a reference after each arrival, including forks().",
+            "every parent vector for <= 5 (quick) / 6 (thorough; 7 split by case) blocks, each block's target a symbolic choice, is compared "
+            "with a reference after each arrival, including forks().",
             "PyMap stands in for immutables.Map; ids are preset tokens; assumes stated height = parent's + 1 (C05) and the head-is-maximal invariant.",
             "DESIGN.md 4/C04"),
     "C01": ("CrossHair symbolic execution of CoinState.add_block on a directly constructed chain state with an adversarial symbolic spend",
             "Solver verdict for every (reference-pool choice x free 32-bit index x 7 signature-object kinds x symbolic values) in blocks of "
             "<= 2 transactions x <= 2 inputs x <= 2 outputs: accepted implies the stated conditions, rejected leaves the pre-state untouched; "
-            "validation reads only the parent's unspent map; equal signed messages imply equal references and outputs.",
+            "validation reads only the parent's unspent map; equal signed messages imply equal references and outputs; the relay entry "
+            "(handle_block_received) refuses unauthorised spends on the head's branch and on a side branch.",
             "Ideal signatures (EUF-CMA), tagged-identity hashes, chain-sample oracle, PyMap/PyBytesIO; candidate placed exactly one above "
             "the (patched) checkpoint horizon. Larger blocks are argued compositionally.", "DESIGN.md 4/C01"),
     "C02": ("CrossHair symbolic execution of CoinState.add_block with fully symbolic amounts + z3 integer arithmetic for the cumulative schedule",
@@ -54,8 +58,8 @@ CLAIMED = {
             "one rule broken at a time; stated height assumed above the checkpoint horizon.", "DESIGN.md 4/C05"),
     "C18": ("CrossHair symbolic execution of validate_block_in_coinstate per checkpointed height (symbolic 32-byte id on an otherwise valid candidate) + concrete anchor with the real scrypt",
             "Solver verdict over every 32-byte id at each checkpointed height (12 heights quick, all thorough): accepted iff id == checkpoint, "
-            "with the candidate otherwise fully valid so that a gate comparison off by one is refuted; a forged spend one above the real horizon "
-            "is rejected. The recorded real blocks are a concrete anchor (real hash functions, also with an unvalidated fork as head).",
+            "with the candidate otherwise fully valid so that a gate comparison off by one is refuted (height 0 with an all-zero parent "
+            "included); a forged spend one above the real horizon is rejected. The recorded real blocks are a concrete anchor (real hash functions, also with an unvalidated fork as head).",
             "Gate part: stubs as C01. Anchor part is not a solver verdict (no quantifier) and is marked as such in the evidence.", "DESIGN.md 4/C18"),
     "C19": ("CrossHair symbolic execution of the peer-book handlers on a node shell + z3 encoding of is_time_to_connect generated from its source",
             "One event from any peer-book state over 3 addresses satisfying the disjointness invariant keeps it (inductive step); back-off rule "
@@ -73,13 +77,15 @@ CLAIMED = {
     "C12": ("CrossHair symbolic execution of MinerWatcher.handle_request_scrypt_input_message / handle_scrypt_output_message on a node shell",
             "Solver verdict over symbolic clocks (assembly and discovery), nonce, parent timestamp and pool fees (0..2 pending transactions) at "
             "ordinary, retarget-boundary and halving heights: the found block passes the node's own add_block, pays exactly subsidy + fees to the "
-            "miner's key, is later than its parent, and is adopted (served state, store calls, broadcast - nothing leaves before validation). "
+            "miner's key, is later than its parent, and is adopted (served state incl. a stale candidate that does not become the head, store "
+            "calls, broadcast to every peer although one fails to send - nothing leaves before validation). "
             "Known finding F5 (clock >= 30 s behind the head) is reported as KNOWN-FINDING and excluded by an added assumption.",
             "MinerWatcher shell without processes/queues; stubs as C01 with LRO ids; elapsed time >= 40000 s at boundaries; competing blocks between "
             "assembly and discovery (threads) outside.", "DESIGN.md 4/C12"),
     "C06": ("CrossHair symbolic execution of Block.deserialize + CoinState.add_block on a valid block's encoding with one byte symbolic (every position) and on every prefix",
             "Solver verdict for every byte position of two valid block encodings (reward only; reward + spend): with the byte replaced by any other "
-            "value (covers all 8 single-bit flips) the bytes fail to decode or full validation rejects them; every proper prefix likewise. The "
+            "value (covers all 8 single-bit flips) the bytes fail to decode or full validation rejects them - offered to a fresh state and to a "
+            "state that already validated and holds the genuine block; every proper prefix likewise. The "
             "adversary gets proof of work for free, so rejection comes from the commitments.",
             "Lazy-table hash oracles (collision-free on the run), ideal signatures, chain-sample oracle; single-byte alterations of two block shapes.",
             "DESIGN.md 4/C06"),
@@ -91,23 +97,26 @@ CLAIMED = {
             "PyMap for immutables.Map, preset ids; validity precondition of C01 assumed for the applied block.", "DESIGN.md 4/C03"),
     "C14": ("CrossHair symbolic execution of create_spend_transaction / sign_transaction and of the transaction validators on their result",
             "Solver verdict over symbolic balances (3 wallet-owned outputs over 2 keys + foreign outputs), amount, fee and pre-existing used-set, "
-            "for two successive requests: a returned transaction passes both validators at the head, pays exactly the amount, returns exactly the "
+            "for two successive requests (also after a confirmed two-input consolidation and across a reorganisation F -> P with an output used "
+            "on P only): a returned transaction passes both validators at the head, pays exactly the amount, returns exactly the "
             "rest as change (none when zero), uses only unused wallet outputs and records exactly those; a refusal changes nothing and happens "
             "only when the unused outputs do not cover amount + fee.",
             "Ideal signing key; stubs as C01; total value <= documented maximum; wallets needing ~1977+ inputs (size limit) outside.", "DESIGN.md 4/C14"),
     "C15": ("CrossHair symbolic execution of the wallet's key bookkeeping, dump/load, get_balance and save_wallet (symbolic structure, ghost set of handed-out keys, symbolic crash point)",
             "Solver verdict from every invariant wallet structure over 4 keys: hand-out / restore / save-load / hand-out keeps the invariant and never "
             "re-issues a key while unused ones remain (known finding F7: exhausted-wallet restore, reported as KNOWN-FINDING and excluded); dump-load "
-            "is the identity incl. order; balance = recount of the head's unspent outputs over wallet keys; save_wallet under a crash before any "
-            "file operation with eager and buffered writes leaves the complete old or new file (replayed with a real process death on a real directory).",
+            "is the identity incl. order; balance = recount of the head's unspent outputs over wallet keys (also when one key is paid twice by one "
+            "transaction); save_wallet under a crash before any file operation with eager and buffered writes leaves the complete old or new "
+            "file, and a restart through open_or_init_wallet loads exactly one of them (replayed with a real process death on a real directory).",
             "Key bytes / annotation texts concrete (json, hexlify are C/regex code); in-memory file system model for the symbolic run.", "DESIGN.md 4/C15"),
     "C08": ("CrossHair symbolic execution of BlockStore write/flush/read + read_chain_from_disk on a relational stand-in for sqlite3 (schema parsed from the repo's DDL), differentially validated against real sqlite3 every run",
             "Solver verdict for trees of <= 3 (thorough 4) blocks above genesis, all flush batchings (n <= 2) / batched vs one-by-one (n = 3), "
-            "case-split extra transactions (pending spend, a conflicting spend on the other fork, a spend of the parent's reward inside one batch) "
+            "case-split extra transactions (pending spend, a conflicting spend on the other fork, a spend of the parent's reward inside one batch, a "
+            "two-input spend with descending output indexes), a block written again after its child was flushed, "
             "and symbolic rewards of two same-height blocks, two tie orders: read-back == written (ids, bytes, transaction ids), parents first, "
             "rebuilt ledger identical per block, same head height. Known finding F2 (transaction id shared by two stored blocks) is reported as "
             "KNOWN-FINDING and excluded by an added assumption.",
-            "SQLite replaced by a relational model of the statements the store issues (agreement with real sqlite3 checked on 27 scenarios per "
+            "SQLite replaced by a relational model of the statements the store issues (agreement with real sqlite3 checked on 30 scenarios per "
             "run; replays use real SQLite); LRO ids.", "DESIGN.md 4/C08"),
     "C09": ("CrossHair symbolic execution of ConnectedRemotePeer.handle_block_received on a node shell with the real BlockStore on the relational sqlite stand-in",
             "Solver verdict per kind of delivered block (13 kinds: valid on head / on an older block, duplicate, orphan, three by-itself defects, "
@@ -121,13 +130,15 @@ CLAIMED = {
             "after the greeting, and (B) for one message object of each malformed class the handlers distinguish (anything before the greeting incl. "
             "a valid transaction, unknown data type, get-data for a transaction, header data, orphan block, by-itself-invalid block, a block whose "
             "validation raises an internal error, transactions failing each rule, over-limit inventory): no exception escapes the per-connection "
-            "handler; chain state object, pool, store buffer/rows and the other peers' connection state are unchanged; nothing is relayed.",
+            "handler; chain state object, pool, store buffer/rows and the other peers' connection state are unchanged (also when the current state "
+            "was published through set_coinstate's default arguments, as the miner does); nothing is relayed.",
             "Node shell (recording selector, fake sockets, buffer-only store); length prefixes <= 3 octets; bodies longer than 24 bytes outside.", "DESIGN.md 4/C20"),
     "C10": ("CrossHair symbolic execution of the synchronisation handlers: step lemmas (locator, inventory service, inventory consumption) + one FIFO two-node schedule with symbolic chain shapes",
             "RESTRICTED CLAIM. Decided: the locator formula for every height < 2^32; the inventory service for every (responder height, requester "
-            "height, fork height, locator of <= 3 entries, requester branch stored or not) within the bound - the reply is a consecutive run of "
+            "height, fork height, locator of <= 3 entries, requester branch stored or not, requester lagging on a stored branch that has overtaken) within the bound - the reply is a consecutive run of "
             "active-chain ids whose first item's parent the requester has, non-empty whenever the responder has something the requester lacks, at "
-            "most one batch; inventory consumption requests exactly the unknown ids once and always continues after the last item; on one FIFO "
+            "most one batch; inventory consumption requests exactly the unknown ids once and always continues after the last item; ChainManager.step issues exactly "
+            "one request when nothing is in progress and a candidate exists and none without reason; on one FIFO "
             "schedule two real nodes converge to the greater height with a complete chain and no block is sent twice. NOT decided: convergence "
             "and quiescence under every interleaving and topology on 2-3 nodes (DESIGN.md section 6) - that part of the statement is outside this technique.",
             "Batch size patched to 2/3 (the code is parametric), heights <= 4/6, node shells; relay-once conditions are decided in C09 (blocks) and C13 (transactions).",
